@@ -157,10 +157,35 @@ def gen_cases(rng, tier, h):
         for i in range(per):
             style = "rand" if i % 5 == 4 else "grid"
             vals = []
+            if nm.startswith("ray_") and i % 6 == 1:
+                # structured axis-parallel ray: one axis k with direction exactly 0 and the origin in the lower face plane,
+                # the upper face plane, strictly inside or strictly outside of that axis' slab; the ray crosses the box
+                n = 3 if nm == "ray_box3" else 2
+                lo = [rng.pick([-2.0, -1.0, 0.0]) for _ in range(n)]
+                up = [l + rng.pick([0.5, 1.0, 2.0, 3.0]) for l in lo]
+                k = rng.randrange(n)
+                org = [l + rng.pick([0.25, 0.5, 0.75]) * (u - l) for l, u in zip(lo, up)]
+                org[k] = rng.pick([lo[k], up[k], lo[k] + 0.5 * (up[k] - lo[k]), up[k] + 0.5, lo[k] - 0.5])
+                d = [rng.pick([1.0, -1.0, 0.5, -2.0]) for _ in range(n)]
+                d[k] = 0.0
+                tr = rng.pick([[0.0, INF], [0.0, 10.0], [-5.0, 5.0], [0.25, 1.0]])
+                byname = dict(org=org, dir=d, b=lo + up, tr=tr)
+                for pn, t in params:
+                    vals += byname[pn]
+                c.append(nm + " " + " ".join(f2h(x) for x in vals))
+                if len(c) == 20:
+                    cases.append(c)
+                    c = []
+                continue
             for pn, t in params:
                 v = _gen_value(rng, t, fields, style)
                 if nm.startswith("ray_") and pn == "dir" and rng.chance(0.7):
                     v = [x if abs(x) >= 0.25 and abs(x) != INF else rng.pick([1.0, -1.0, 0.5, -2.0]) for x in v]
+                    if rng.chance(0.45):   # axis-parallel: one or more components exactly zero (never all)
+                        zs = [k for k in range(len(v)) if rng.chance(0.5)]
+                        if len(zs) == len(v):
+                            zs = zs[1:]
+                        v = [0.0 if k in zs else x for k, x in enumerate(v)]
                 if nm.startswith("ray_") and pn == "tr":
                     v = sorted(abs(x) if abs(x) != INF else 1.0 for x in v)
                     if rng.chance(0.5):
@@ -311,23 +336,40 @@ def oracle_xfm(a, out):
 
 
 def oracle_ray(nm, a, out):
+    """intersectRayBox covers exactly the ray parameters whose points lie inside the box. Axis-parallel rays (direction
+    components that are exactly 0) are judged by exact geometry: the component stays at org_k. Not judged: components of
+    tiny non-zero magnitude, anything within 1e-3 of a face (rounding), inverted boxes, non-finite arguments."""
     n = 3 if nm == "ray_box3" else 2
     if any(x != x for x in a):
         return None
     org, d, lo, up, tr = a[:n], a[n:2 * n], a[2 * n:3 * n], a[3 * n:4 * n], a[4 * n:]
-    if any(abs(x) < 0.2 or abs(x) == INF for x in d) or any(u < l for l, u in zip(lo, up)) or any(abs(x) == INF for x in org + lo + up):
+    if any((x != 0.0 and abs(x) < 0.2) or abs(x) == INF for x in d) or any(u < l for l, u in zip(lo, up)) or any(abs(x) == INF for x in org + lo + up):
+        return None
+    if all(x == 0.0 for x in d):
         return None
     res = [h2f(t) for t in out]
+    on_face = False          # an axis-parallel ray whose origin lies exactly in a face plane of its own axis
+    for k in range(n):
+        if d[k] == 0.0:
+            if org[k] == lo[k] or org[k] == up[k]:
+                on_face = True
+            elif min(abs(org[k] - lo[k]), abs(org[k] - up[k])) < 1e-3:
+                return None
     if any(x != x for x in res):
+        if any(x == 0.0 for x in d):
+            return "intersectRayBox returns NaN for an axis-parallel ray: %s" % res
         return None
     for t in [-3.0, -1.0, -0.37, 0.0, 0.21, 0.5, 0.77, 1.0, 1.5, 2.25, 4.0, 9.0]:
         pt = [o + t * k for o, k in zip(org, d)]
-        margin = min([abs(x - l) for x, l in zip(pt, lo)] + [abs(x - u) for x, u in zip(pt, up)] + [abs(t - tr[0]), abs(t - tr[1])])
+        margin = min([abs(x - l) for x, l, k in zip(pt, lo, d) if k != 0.0] + [abs(x - u) for x, u, k in zip(pt, up, d) if k != 0.0]
+                     + [abs(t - tr[0]), abs(t - tr[1])])
         if margin < 1e-3:
             continue
         inside = all(l <= x <= u for l, x, u in zip(lo, pt, up)) and tr[0] <= t <= tr[1]
         got = res[0] <= t <= res[1]
         if inside != got:
+            if on_face and inside and not got:
+                return "KNOWN:C05-raybox-axis-parallel-on-face"
             return ("intersectRayBox must cover exactly the ray parameters whose points lie inside the box: t=%s point=%s inside=%s interval=%s"
                     % (t, pt, inside, res))
     return None
@@ -365,7 +407,8 @@ def extra_stage(rep, ctx):
                 if fid in ctx["known"]:
                     rep.known(fid, ctx["known"][fid]["text"])
                     continue
-                msg = "intersectionOf of/with an inverted box is empty but disjoint() is false"
+                msg = ("intersectionOf of/with an inverted box is empty but disjoint() is false" if "inverted" in fid else
+                       "intersectRayBox does not cover parameters whose points lie inside the box (axis-parallel ray starting in a face plane)")
             if reported < 3:
                 reported += 1
                 rep.violation(dict(kind="property-oracle", ops=[line], impl=[o], args=a, detail=msg,
